@@ -30,6 +30,11 @@ fn cfg_for(thorough : bool, clock : Clock) -> HistCfg
     c.weights[hist::W_CLEAN_ALL] = 4;
     c.weights[hist::W_REVERT_LEAF] = 10;
     c.weights[hist::W_EDIT_RULE] = 4;
+    // failing builds matter too: what a failed build saves (or does not save) must not mislead the next one
+    c.failures = true;
+    c.weights[hist::W_POISON_FAIL] = 4;
+    c.weights[hist::W_POISON_SKIP] = 2;
+    c.weights[hist::W_DELETE_LEAF] = 3;
     c
 }
 
